@@ -354,8 +354,13 @@ def run(res, tier, seed, model_ok, search):
             c = (mbv, Fraction(0), Fraction(0), Fraction(0))
         sz = o["size"] if o["kind"] != "limit" else (o["size"] or o["target"])
         if o["kind"] == "limit" and o["price"] is not None and sz is not None and o["price"] * sz == c[2] and sz < c[1]:
-            res.tie_truncated += 1  # float product exactly at the payout threshold
-            continue
+            # payout exactly at the threshold: the code compares the FLOAT product with the threshold; where that product is not
+            # the exact one (0.07 x 142.857...) the comparison is a float artefact and is not compared - where it is exact
+            # (0.5 x 20, 0.02 x 500 ...) the boundary is compared like any other case
+            if (float(o["price"]) * float(sz) < float(c[2])) != (o["price"] * sz < c[2]):
+                res.tie_truncated += 1
+                continue
+            res.distribution["validate:payout-exactly-at-the-threshold"] += 1
         r, order = impl_validate(mods, ccy, mbv, o, simulated=(ccy == "GBP" and o["kind"] != "betdaq" and hash(str(o)) % 3 == 0))
         if r != "OK" and r != "ERR" and o["price"] is None:
             r = "ERR" if order.status == OrderStatus.VIOLATION else r
